@@ -258,8 +258,14 @@ def parse_entries(entries):
 
 def compare_views(expected_entries, actual_entries):
     """Spec view vs reader view. Returns list of (code, detail)."""
+    skip_iso = any(e.startswith('X:relocation-name-collision') for e in expected_entries)
+    expected_entries = [e for e in expected_entries if not e.startswith('X:')]
     exp = parse_entries(expected_entries)
     act = parse_entries([e for e in actual_entries if not e.startswith('B:')])
+    # relocation placeholders: kind P on both sides (histcheck.relocate_expected / Reader.emitPhys)
+    if skip_iso:
+        exp = {k: v for k, v in exp.items() if k[0] not in ('I', 'R')}
+        act = {k: v for k, v in act.items() if k[0] not in ('I', 'R')}
     diffs = []
     for k in sorted(set(exp) - set(act)):
         diffs.append(('missing', '%s:%s:%s' % k))
